@@ -128,8 +128,8 @@ def text_output():
            bounds="page PC x PR = 2x2 (quick) and 3x2 cells, fully symbolic; TSIZE on the grid",
            outside="exact flow-mode layout (space collapsing rules) is not specified by the property and not asserted",
            grid=[dict(PC=2, PR=2, TSIZE=t) for t in range(0, 6)] + [dict(PC=3, PR=2, TSIZE=t) for t in (0, 2, 5, 7, 8)],
-           quick_grid=[dict(PC=2, PR=2, TSIZE=t) for t in (0, 2, 4, 5)],
-           unwindset=us(3, 2), reach=["end", "printed"], timeout=600, mem_gb=4, **common),
+           quick_grid=[dict(PC=2, PR=2, TSIZE=t) for t in (2, 5)],
+           unwindset=us(3, 2), reach=["end"], timeout=600, mem_gb=4, **common),
     ]
 
 
@@ -151,39 +151,36 @@ def rendering():
                            "the functions do not validate)"] +
                           ([] if STRICT else ["KNOWN_C16_CUT_WIDE (known finding): the last cell of a region row is not DOUBLE_WIDTH/DOUBLE_SIZE/DOUBLE_SIZE2"]))
     # RSX = extra bytes per canvas row (-1: rowstride argument -1); whole pixels for the 4-byte formats.
-    # RGBA: case split over the size attribute of the first/second cell and DRCS-or-character (see the harness); PAL8: everything symbolic at once
-    def rgba(w, h, x, quick=False):
-        out = []
-        for s0 in range(8):
-            wide = s0 in (1, 3, 7)
-            s1s = (4,) if (wide and w == 2) else (0,) if w == 1 else (0, 2)
-            for s1 in s1s:
-                for d in (0, 1):
-                    out.append(dict(CC=0, RW=w, RH=h, FMT=32, RSX=x, SIZE0=s0, SIZE1=s1, DRCS=d))
-        return out
-    vt_full = rgba(1, 1, 0) + rgba(1, 1, 4) + rgba(2, 1, 0) + rgba(2, 1, 8) + rgba(1, 2, -1) + \
-              [dict(CC=0, RW=w, RH=h, FMT=5, RSX=x) for (w, h) in ((1, 1), (2, 1), (1, 2)) for x in (0, 1, 5, -1)] + \
+    # Measured: PAL8 instances 10-60 s.  RGBA32 instances are dominated by the pen look-up (the renderer reads its pen, a 256-byte union, through a
+    # byte pointer cast to uint32_t*: a 256-way multiplexer per pixel): closed caption 1x1 = 7.4 M variables / 37 M clauses, 300 s with cadical;
+    # Teletext 1x1 even with the size attribute and DRCS-or-character fixed by the grid: 12.7 GB after 130 s, no verdict -> Teletext RGBA32 is
+    # NOT claimed (the address arithmetic is the same code with canvas_type 4 instead of 1; the unsupported-format and PAL8 instances cover the
+    # control flow).  Closed caption RGBA32 is kept in the thorough tier.
+    vt_full = [dict(CC=0, RW=w, RH=h, FMT=6, RSX=x) for (w, h) in ((1, 1), (2, 1), (1, 2)) for x in (0, 1, 5, -1)] + \
               [dict(CC=0, RW=1, RH=1, FMT=1, RSX=0), dict(CC=0, RW=2, RH=1, FMT=1, RSX=4)]
-    vt_quick = [dict(CC=0, RW=1, RH=1, FMT=32, RSX=0, SIZE0=0, SIZE1=0, DRCS=0), dict(CC=0, RW=1, RH=1, FMT=32, RSX=4, SIZE0=6, SIZE1=0, DRCS=1),
-                dict(CC=0, RW=2, RH=1, FMT=32, RSX=0, SIZE0=3, SIZE1=4, DRCS=0), dict(CC=0, RW=2, RH=1, FMT=32, RSX=8, SIZE0=1, SIZE1=4, DRCS=1),
-                dict(CC=0, RW=1, RH=1, FMT=5, RSX=1), dict(CC=0, RW=2, RH=1, FMT=5, RSX=0), dict(CC=0, RW=1, RH=2, FMT=5, RSX=-1),
+    vt_quick = [dict(CC=0, RW=1, RH=1, FMT=6, RSX=1), dict(CC=0, RW=2, RH=1, FMT=6, RSX=0), dict(CC=0, RW=1, RH=2, FMT=6, RSX=-1),
                 dict(CC=0, RW=1, RH=1, FMT=1, RSX=0)]
-    cc_full = [dict(CC=1, RW=w, RH=1, FMT=32, RSX=x) for w in (1, 2) for x in (0, 4, -1)] + [dict(CC=1, RW=w, RH=1, FMT=5, RSX=x) for w in (1, 2) for x in (0, 3, -1)] + \
-              [dict(CC=1, RW=1, RH=1, FMT=1, RSX=0)]
-    cc_quick = [dict(CC=1, RW=1, RH=1, FMT=32, RSX=0), dict(CC=1, RW=2, RH=1, FMT=5, RSX=3), dict(CC=1, RW=1, RH=1, FMT=1, RSX=0)]
+    cc_full = [dict(CC=1, RW=w, RH=1, FMT=6, RSX=x) for w in (1, 2) for x in (0, 3, -1)] + [dict(CC=1, RW=1, RH=1, FMT=1, RSX=0)]
+    cc_quick = [dict(CC=1, RW=1, RH=1, FMT=6, RSX=0), dict(CC=1, RW=2, RH=1, FMT=6, RSX=3), dict(CC=1, RW=1, RH=1, FMT=1, RSX=0)]
+    cc_rgba = [dict(CC=1, RW=1, RH=1, FMT=32, RSX=0), dict(CC=1, RW=1, RH=1, FMT=32, RSX=4)]
     text = ("into a canvas that is an exact-size object of the documented size rowstride x rows x cell height: every access inside canvas/page/font/pen objects, "
             "guard bytes between the pixel rows of the rectangle keep their (symbolic) fill value, unsupported pixel format (YUV420) leaves the canvas untouched, "
             "1x1 region with an ordinary character: every pixel is one of the cell's two colours")
     return [
         Ob("draw_vt_region", desc="vbi_draw_vt_page_region, RW x RH cells at a symbolic position of a 3x2 page, cells/colour map/DRCS clut/reveal/flash symbolic, " + text,
            encodes=["vbi_draw_vt_page_region", "draw_char", "draw_drcs", "draw_blank", "unicode_wstfont2"], defines=dict(C16_HAVE_GFX=1, **known),
-           bounds="regions 1x1, 2x1, 1x2; pixel formats RGBA32_LE, PAL8, YUV420; rowstride = rectangle width + {0,4,8} (RGBA) / {0,1,5} (PAL8) bytes or -1 (page width)",
-           outside="'same pixels as the full-page rendering' (only pen colours per cell are checked); glyph shapes; regions larger than 2 cells",
+           bounds="regions 1x1, 2x1, 1x2; pixel formats PAL8 and YUV420 (unsupported); rowstride = rectangle width + {0,1,5} bytes or -1 (page width)",
+           outside="VBI_PIXFMT_RGBA32_LE for Teletext (no verdict: 12.7 GB / 130 s for one cell, see C16.py); 'same pixels as the full-page rendering' (only pen "
+                   "colours per cell are checked); glyph shapes; regions larger than 2 cells",
            grid=vt_full, quick_grid=vt_quick, reach=["end"], timeout=600, mem_gb=4, **common),
         Ob("draw_cc_region", desc="vbi_draw_cc_page_region, RW x 1 cells at a symbolic position of a 3x2 page, cells and colour map symbolic, " + text,
            encodes=["vbi_draw_cc_page_region", "draw_char", "unicode_ccfont2"], defines=dict(C16_HAVE_GFX=1),
-           bounds="regions 1x1, 2x1 (16x26 pixel cells); pixel formats RGBA32_LE, PAL8, YUV420; rowstride = rectangle width + {0,4} (RGBA) / {0,3} (PAL8) bytes or -1",
+           bounds="regions 1x1, 2x1 (16x26 pixel cells); pixel formats PAL8, YUV420 (unsupported); rowstride = rectangle width + {0,3} bytes or -1",
            outside="glyph shapes; larger regions", grid=cc_full, quick_grid=cc_quick, reach=["end"], timeout=600, mem_gb=4, **common),
+        Ob("draw_cc_region_rgba", desc="vbi_draw_cc_page_region, 1x1 cell, VBI_PIXFMT_RGBA32_LE (canvas = array of 32-bit pixels), " + text,
+           encodes=["vbi_draw_cc_page_region", "draw_char", "unicode_ccfont2"], defines=dict(C16_HAVE_GFX=1), tier="thorough", solver="cadical",
+           bounds="region 1x1; rowstride = 64 or 68 bytes", outside="2x1 regions in RGBA32", grid=cc_rgba, reach=["end", "plain_cell"],
+           timeout=900, mem_gb=8, **common),
     ]
 
 
